@@ -409,8 +409,8 @@ example : ∀ x, Out.bcast x ∈ stepOuts exSysA (.deliver 0 exRc3) →
     exA_facts.1 exA_facts.2.1 exA_inRound x (Or.inl hx) Validation.ctx0 Validation.State.empty (exInput 0 x 6) ⟨96, false⟩
     Validation.share4 rfl (Or.inl rfl) (exShare 0) (exEnvelope 0 x 6) (exFresh 0 x 6)).1
 
-/-- … whereas the finding's delivery is not in-round (round 3 delivered to an instance in round 2 is fine, but the run
-    that led there delivered round 3 to an instance in round 1) -/
+/-- … whereas the run behind the finding state `fSys` is NOT in-round: it delivers a round-3 round-change to an instance that
+    is still in round 1 (the in-round checker stops there) -/
 example : (runItemsC (Sys.init fP) fSched).isSome = false := by decide +kernel
 
 theorem exA_timely : TimelyAction exSysA (.deliver 0 exRc3) := by
